@@ -230,6 +230,7 @@ class SockRunner:
         self.sock = psock.AirTouchSocket(self.loop, "10.0.0.1", 9000 + gen, self.reg)
         self.events: list[tuple] = []
         self.sub_raise = False
+        self.sub_send = None
         self.sock.subscribe_on_connection_changed(self._conn_changed)
         self.sock.subscribe_on_message_received(self._msg_received)
         self.consumed: dict[int, int] = {}
@@ -251,6 +252,10 @@ class SockRunner:
 
     async def _conn_changed(self, *, connected: bool) -> None:
         self.events.append(("notify", bool(connected)))
+        if connected and self.sub_send is not None:
+            # a connection subscriber that sends when the link comes up (as the API classes do)
+            k, pol = self.sub_send
+            await self._do_send(k, pol)
 
     async def _msg_received(self, hdr, msg) -> None:
         j = self._identify_rx(hdr, msg)
@@ -392,6 +397,8 @@ class SockRunner:
             self._spawn(do_reset())
         elif kind == "subraise":
             self.sub_raise = bool(st[1])
+        elif kind == "subsend":
+            self.sub_send = (st[1], st[2]) if st[1] >= 0 else None
         elif kind == "bp":
             # transport back-pressure: while on, writer.drain() blocks (the transport called
             # pause_writing() on the stream protocol); also applied to connections opened meanwhile
